@@ -708,6 +708,10 @@ void File::uncompressedFile2ReadWriteQueue() {
     }
     m_uncompressedFile.seekg(-ohb.calculateHeaderSize(), std::ios_base::cur);
 
+    /* an object cannot be smaller than its own base header (corrupt file: no progress would be made) */
+    if (ohb.objectSize < ohb.calculateHeaderSize())
+        throw Exception("File::uncompressedFile2ReadWriteQueue(): Object size smaller than object header.");
+
     /* create object */
     ObjectHeaderBase * obj = createObject(ohb.objectType);
     if (obj == nullptr) {
